@@ -105,6 +105,12 @@ def step (st : St) : List String → St × String
   | ["unwrap", a, n] => match st, a.toNat?, n.toNat? with
     | .fn, some a, some n => if a < two64 ∧ n < two32 then (st, toString (unwrapFrameNo a n)) else (st, "bad-op")
     | _, _, _ => (st, "bad-op")
+  | ["fts", w, u, c, n, rto, start] => match st, w.toNat?, u.toNat?, c.toInt?, n.toNat?, rto.toNat?, start.toInt? with
+    | .fn, some w, some u, some c, some n, some rto, some start =>
+      if w < 65536 ∧ u < 65536 ∧ n ≤ 1000000 ∧ rto ≤ 1 ∧ c.natAbs ≤ 1000000000 ∧ start.natAbs ≤ 1000000000 then
+        (st, toString (framesToSend w u c n (rto == 1) start))
+      else (st, "bad-op")
+    | _, _, _, _, _, _, _ => (st, "bad-op")
   | ["inb", a, b, c] => match st, a.toNat?, b.toNat?, c.toNat? with
     | .fn, some a, some b, some c =>
       if a < two64 ∧ b < two64 ∧ c < two64 then (st, if frameInBounds a b c then "1" else "0") else (st, "bad-op")
